@@ -5,6 +5,7 @@ import (
 	"fmt"
 	"os"
 	"path/filepath"
+	"regexp"
 	"strconv"
 	"strings"
 	"sync"
@@ -254,6 +255,52 @@ func checkC13(c *core.Ctx) {
 		b := clone(a, fmt.Sprintf("qb%d", v))
 		b.Cfg.CropParamFmt = "yml"
 		add(&pairCase{Name: a.Name, What: fmt.Sprint("rotation classic vs converted YAML, crops ", crops), A: a, B: b, ParamB: ymlParams})
+	}
+	// (1c) crop files that carry the same optional key=value field (e.g. the organ of N-content function 5) follow each
+	// other in both orders: the value one file gives must not survive into a crop whose file gives another (or none)
+	{
+		keysOf := map[string]map[string]bool{}
+		reKV := regexp.MustCompile(`([A-Za-z_.]+)=`)
+		for _, crop := range annualCropCodes {
+			b, err := os.ReadFile(filepath.Join(paramSrc, "PARAM."+crop))
+			if err != nil {
+				continue
+			}
+			for _, m := range reKV.FindAllStringSubmatch(string(b), -1) {
+				if keysOf[crop] == nil {
+					keysOf[crop] = map[string]bool{}
+				}
+				keysOf[crop][m[1]] = true
+			}
+		}
+		n := 0
+		for _, x := range annualCropCodes {
+			for _, y := range annualCropCodes {
+				shared := false
+				for k := range keysOf[x] {
+					if keysOf[y][k] {
+						shared = true
+					}
+				}
+				if x == y || !shared || gen.IsWinterCrop(x) || gen.IsWinterCrop(y) || n >= c.Pick(4, 12) {
+					continue
+				}
+				n++
+				o := gen.Opts{Years: 3, MinLayers: 4, MaxLayers: 10, Crops: []string{x, y}, ETMethods: []int{3}, DateFormats: []int{1}, StartYearMin: 1970, StartYearMax: 2020}
+				a := gen.Random(rngFor(c, 1360+int64(n)), fmt.Sprintf("ka%d", n), o)
+				if len(a.Rotation) < 3 {
+					continue
+				}
+				a.Rotation[1].Crop, a.Rotation[2].Crop = x, y
+				a.Rotation = a.Rotation[:3]
+				a.Till = nil
+				a.Cfg.ResultFormat, a.Cfg.ResultExt = 1, "csv"
+				a.SetVerificationOutputs()
+				b := clone(a, fmt.Sprintf("kb%d", n))
+				b.Cfg.CropParamFmt = "yml"
+				add(&pairCase{Name: a.Name, What: fmt.Sprintf("rotation classic vs converted YAML, %s then %s (files with a shared optional field)", x, y), A: a, B: b, ParamB: ymlParams})
+			}
+		}
 	}
 	nvar := c.Pick(2, 12)
 	for v := 0; v < nvar; v++ {
